@@ -173,7 +173,7 @@ func itemsFor(r *core.Run, loader string, all []*content) []*dataItem {
 	}
 	switch loader {
 	case "text":
-		for _, c := range sampleContents(all, 2, r.Pick(-1, -1), rnd) {
+		for _, c := range sampleContents(all, 2, r.Pick(-1, 7000), rnd) {
 			add(c.name(), "", toBytes(c.Bytes), c.Text, true, c.Atoms)
 		}
 	case "json":
@@ -193,13 +193,13 @@ func itemsFor(r *core.Run, loader string, all []*content) []*dataItem {
 			}
 			return append(append([]byte(`"`), src...), '"')
 		}
-		for _, c := range sampleContents(js, 2, r.Pick(-1, -1), rnd) {
+		for _, c := range sampleContents(js, 2, r.Pick(-1, 7000), rnd) {
 			add(c.name()+"@val", "val", doc(c, "val"), c.JText, true, c.Atoms)
 		}
-		for _, c := range sampleContents(js, 2, r.Pick(200, 3000), rnd) {
+		for _, c := range sampleContents(js, 2, r.Pick(200, 1500), rnd) {
 			add(c.name()+"@key", "key", doc(c, "key"), c.JText, true, c.Atoms)
 		}
-		for _, c := range sampleContents(js, 1, r.Pick(150, 2000), rnd) {
+		for _, c := range sampleContents(js, 1, r.Pick(150, 1000), rnd) {
 			add(c.name()+"@top", "top", doc(c, "top"), c.JText, true, c.Atoms)
 		}
 		for i, d := range jsonDocs() {
@@ -517,17 +517,21 @@ func narrow(r *core.Run, projects map[string]*dataProject, d dataCase, whole str
 }
 
 func runDataCases(r *core.Run, projects map[string]*dataProject, cases []dataCase) {
+	built := make([]*dataRun, len(cases))
+	berrs := make([]string, len(cases))
+	core.Parallel(len(cases), 4, func(i int) {
+		built[i], berrs[i] = buildData(projects[cases[i].Loader], cases[i], nil, "all")
+	})
 	var runs []*dataRun
-	for _, d := range cases {
-		run, berr := buildData(projects[d.Loader], d, nil, "all")
-		if berr != "" {
-			what := "esbuild rejects a project that only imports data files: " + berr
+	for i, d := range cases {
+		if berrs[i] != "" {
+			what := "esbuild rejects a project that only imports data files: " + berrs[i]
 			key := dataKey(d)
 			key["kind"] = "data-build"
 			r.Violation(key, what, map[string]interface{}{"data_case": d, "what": what})
 			continue
 		}
-		runs = append(runs, run)
+		runs = append(runs, built[i])
 	}
 	results, ok := execRuns(r, projects, runs)
 	if !ok {
@@ -625,21 +629,25 @@ func runDataLoaders(r *core.Run, all []*content) {
 			}
 			continue
 		}
+		// thorough: format x minify x target in full; the charset alternates so that
+		// every (minify, target) pair meets both charsets (in different formats)
 		j := 0
-		for _, f := range []string{"esm", "cjs", "iife"} {
-			for _, m := range []bool{false, true} {
-				for _, cs := range []string{"ascii", "utf8"} {
-					for _, t := range dataTargets {
-						if !stringy && (cs == "utf8" || t == "es2015" || t == "notemplate") {
-							continue // charset and template literals only matter where a string is embedded
-						}
-						entry := "esm"
-						if j%2 == 1 {
-							entry = "cjs"
-						}
-						cases = append(cases, dataCase{l, entry, f, platforms[j%3], m, cs, t})
-						j++
+		for fi, f := range []string{"esm", "cjs", "iife"} {
+			for mi, m := range []bool{false, true} {
+				for ti, t := range dataTargets {
+					cs := "ascii"
+					if stringy && (fi+mi+ti)%2 == 1 {
+						cs = "utf8"
 					}
+					if !stringy && (t == "es2015" || t == "notemplate") {
+						continue // template literals only matter where a string is embedded
+					}
+					entry := "esm"
+					if j%2 == 1 {
+						entry = "cjs"
+					}
+					cases = append(cases, dataCase{l, entry, f, platforms[j%3], m, cs, t})
+					j++
 				}
 			}
 		}
